@@ -98,7 +98,7 @@ func (m *monC13) AfterTx(w *World, tx *TxCtx) {
 		}
 		func() {
 			defer func() { _ = recover() }()
-			if ns := namedSigner(top); ns != "" && ns != signer {
+			if ns := namedSigner(top); ns != "" && ns != signer && !tx.Signers[ns] {
 				impersonated = k
 			}
 		}()
